@@ -834,6 +834,12 @@ func dialFailed(w *world.World, addr string) bool {
 func c20Scenarios(tier string) []*world.Scenario {
 	out := c20Reparent()
 	out = append(out, c20BanRecovery(0, tier), c20BanRecovery(1, tier))
+	for _, pat := range []string{"WR", "PR", "OR", "RW", "WWR", "WRR", "PWR", "RPR", "WPWR", "WRWWR"} {
+		out = append(out, c20TrafficMix(2, pat, 4))
+		if len(pat) <= 3 || tier == "thorough" {
+			out = append(out, c20TrafficMix(3, pat, 3))
+		}
+	}
 	for nrep := 2; nrep <= 3; nrep++ {
 		// per replica: healthy / pool missing (node not in the proxy's pool map because its address is unknown)
 		for mask := 0; mask < 1<<nrep; mask++ {
@@ -977,6 +983,91 @@ func c20Scenarios(tier string) []*world.Scenario {
 		}
 	}
 	return out
+}
+
+// c20TrafficMix: reads interleaved with other traffic in a fixed period (a write, a locally answered PING, a read of
+// another master's slot between the reads): whatever the mix, over all random outcomes of a run every healthy replica
+// serves some read (a selection driven by a counter that other traffic advances too fails this for some mix).
+func c20TrafficMix(nrep int, pattern string, periods int) *world.Scenario {
+	nodes := T3m()
+	var healthy []string
+	for i := 0; i < nrep; i++ {
+		addr := fmt.Sprintf("10.0.1.%d:7000", i+1)
+		nodes = append(nodes, world.NodeSpec{Name: fmt.Sprintf("a%d", i+1), Addr: addr, Master: "aaa"})
+		healthy = append(healthy, addr)
+	}
+	sc := &world.Scenario{Nodes: nodes, Bound: 0, FreeKinds: []string{"intn"}, IntnChoice: true, Horizon: 600, Family: "traffic-mix", CheckOwner: true}
+	key, wkey, okey := keysA[0], keysA[1], keysC[0]
+	var rr []Req
+	for p := 0; p < periods; p++ {
+		for _, c := range pattern {
+			switch c {
+			case 'R':
+				rr = append(rr, GetReq(key))
+			case 'W':
+				rr = append(rr, SetReq(wkey, "v"))
+			case 'P':
+				rr = append(rr, PingReq())
+			case 'O':
+				rr = append(rr, GetReq(okey))
+			}
+		}
+	}
+	cs := ClientOf(rr, false)
+	for j := range cs.Chunks {
+		cs.Chunks[j].WaitReplies = j
+	}
+	sc.Clients = []world.ClientSpec{cs}
+	sc.Name = fmt.Sprintf("C20/traffic-mix/%drep/(%s)x%d", nrep, pattern, periods)
+	sc.Observe = func(w *world.World) string {
+		set := map[string]bool{}
+		for _, rec := range w.DataCmds("") {
+			if hasKey(rec.Args, key) && !world.IsError(rec.Reply) {
+				set[rec.Addr] = true
+			}
+		}
+		var l []string
+		for a := range set {
+			l = append(l, a)
+		}
+		sort.Strings(l)
+		return strings.Join(l, ",")
+	}
+	sc.Check = func(w *world.World) []world.Violation {
+		for _, rec := range w.DataCmds("") {
+			if hasKey(rec.Args, wkey) && rec.Addr != AddrA {
+				return []world.Violation{{Sig: "write-not-to-master", Msg: fmt.Sprintf("%q sent to %s", rec.Raw, rec.Addr)}}
+			}
+		}
+		return CheckStreams(w, StreamOpts{})
+	}
+	sc.Final = func(obs map[string]int) []world.Violation {
+		served := map[string]bool{}
+		n := 0
+		for k, c := range obs {
+			n += c
+			for _, a := range strings.Split(k, ",") {
+				if a != "" {
+					served[a] = true
+				}
+			}
+		}
+		var missing, seen []string
+		for _, h := range healthy {
+			if !served[h] {
+				missing = append(missing, h)
+			}
+		}
+		for a := range served {
+			seen = append(seen, a)
+		}
+		sort.Strings(seen)
+		if len(missing) > 0 {
+			return []world.Violation{{Sig: "healthy-replica-unreachable", Msg: fmt.Sprintf("traffic mix (%s) repeated %d times: over ALL outcomes of the random choices (%d executions) the reads of one slot of master A are only ever served by {%s}; healthy replicas never selected: %v", pattern, periods, n, strings.Join(seen, ", "), missing)}}
+		}
+		return nil
+	}
+	return sc
 }
 
 // c20Reparent: a replica is re-parented to another master (nothing else changes): after the refresh it must serve
